@@ -237,6 +237,8 @@ type CycleScript struct {
 	Salt            int  `json:"salt"`
 	// DeleteNodes: nodes that leave the cluster after this cycle (their bound pods go with them, BindRequests stay)
 	DeleteNodes []string `json:"deleteNodes,omitempty"`
+	// Mutations: API changes made by users / administrators after this cycle (process.go)
+	Mutations []Mutation `json:"mutations,omitempty"`
 }
 
 type World struct {
@@ -250,6 +252,8 @@ type World struct {
 	// raw extra objects (hostile worlds)
 	ExtraBindRequests []RawBindRequest `json:"extraBindRequests,omitempty"`
 	Family            string           `json:"family,omitempty"` // C05 clause (b): reclaim | preempt
+	// PersistentScheduler: one scheduler process lives through all cycles instead of a restart per cycle (process.go)
+	PersistentScheduler bool `json:"persistentScheduler,omitempty"`
 }
 
 type RawBindRequest struct {
